@@ -390,7 +390,8 @@ fn impl_shape(f: &syn::ImplItemFn) -> String {
     String::new()
 }
 
-fn macro_def(file: &str, m: &syn::ItemMacro, name: &str) -> R<MacroDef> {
+/// the rule of a new-type macro that declares `pub struct $name`, with `$x` replaced by `__x`, parsed as items
+pub fn macro_file(file: &str, m: &syn::ItemMacro, name: &str) -> R<syn::File> {
     // rules: ( matcher ) => { body } ;
     let toks: Vec<TokenTree> = m.mac.tokens.clone().into_iter().collect();
     let mut bodies = Vec::new();
@@ -431,7 +432,11 @@ fn macro_def(file: &str, m: &syn::ItemMacro, name: &str) -> R<MacroDef> {
             format!("exactly one rule whose body declares `pub struct $name` and parses as items (found {})", found.len()),
         );
     }
-    let f = &found[0];
+    Ok(found.remove(0))
+}
+
+fn macro_def(file: &str, m: &syn::ItemMacro, name: &str) -> R<MacroDef> {
+    let f = &macro_file(file, m, name)?;
     let mut def = MacroDef {
         name: name.to_string(),
         struct_fields: vec![],
